@@ -81,6 +81,168 @@ Lemma watch_nil : forall x, watch_closed x -> is_nil (wlist x) = true ->
   forall sc, ~ In sc (wlist x).
 Proof. intros x _ H sc. destruct (wlist x); [intros [] | discriminate]. Qed.
 
+(* extractBlockMatches only ever adds to the watched inputs *)
+Lemma extract_waddrs : forall txs x, waddrs (snd (extract x txs)) = waddrs x.
+Proof.
+  induction txs as [|t r IH]; intros x; cbn [extract]; [reflexivity|].
+  destruct (tx_step x t) as [rel x1] eqn:E.
+  assert (Q : waddrs x1 = waddrs x) by (unfold tx_step in E; inversion E; reflexivity).
+  specialize (IH x1). destruct (extract x1 r) as [l x2]. cbn [snd] in *. congruence.
+Qed.
+Lemma extract_winputs : forall txs x o,
+  In o (map fst (winputs x)) -> In o (map fst (winputs (snd (extract x txs)))).
+Proof.
+  induction txs as [|t r IH]; intros x o H; cbn [extract]; [exact H|].
+  destruct (tx_step x t) as [rel x1] eqn:E.
+  assert (Q : In o (map fst (winputs x1))).
+  { unfold tx_step in E; inversion E. cbn [winputs]. rewrite map_app. apply in_or_app. left. exact H. }
+  specialize (IH x1 o Q). destruct (extract x1 r) as [l x2]. exact IH.
+Qed.
+
+(* ------------------------------------ watch states with the same members *)
+(* waitForBlocks applies its queue of updates again and again, so the watch
+   lists of the code hold entries more than once; relevance only asks for
+   membership *)
+Definition weq (x y : swatch) : Prop :=
+  (forall a, In a (fst x) <-> In a (fst y)) /\ (forall o, In o (snd x) <-> In o (snd y)).
+
+Lemma weq_refl : forall x, weq x x.
+Proof. intros x; split; intros; tauto. Qed.
+Lemma weq_sym : forall x y, weq x y -> weq y x.
+Proof. intros x y [A B]; split; intros; [rewrite A | rewrite B]; tauto. Qed.
+Lemma weq_trans : forall x y z, weq x y -> weq y z -> weq x z.
+Proof. intros x y z [A B] [C D]; split; intros; [rewrite A, C | rewrite B, D]; tauto. Qed.
+
+Lemma memN_weq : forall a l l', (forall x, In x l <-> In x l') -> memN a l = memN a l'.
+Proof.
+  intros a l l' H. destruct (memN a l) eqn:E1, (memN a l') eqn:E2; try reflexivity.
+  - apply memN_In, H, memN_In in E1. congruence.
+  - apply memN_In, H, memN_In in E2. congruence.
+Qed.
+
+Lemma op_eqb_refl : forall o, op_eqb o o = true.
+Proof. intros [a b]. unfold op_eqb. cbn. rewrite !N.eqb_refl. reflexivity. Qed.
+
+Lemma mem_op_In : forall o l, mem_op o l = true <-> In o l.
+Proof.
+  intros o l. unfold mem_op. rewrite existsb_exists. split.
+  - intros (y & Hy & E). apply op_eqb_eq in E. subst. exact Hy.
+  - intros H. exists o. split; [exact H | apply op_eqb_refl].
+Qed.
+
+Lemma mem_op_weq : forall o l l', (forall x, In x l <-> In x l') -> mem_op o l = mem_op o l'.
+Proof.
+  intros o l l' H. destruct (mem_op o l) eqn:E1, (mem_op o l') eqn:E2; try reflexivity.
+  - apply mem_op_In, H, mem_op_In in E1. congruence.
+  - apply mem_op_In, H, mem_op_In in E2. congruence.
+Qed.
+
+Lemma paid_weq : forall A A' tid outs i, (forall x, In x A <-> In x A') ->
+  paid A tid i outs = paid A' tid i outs.
+Proof.
+  induction outs as [|sc r IH]; intros i H; cbn [paid]; [reflexivity|].
+  rewrite (memN_weq sc A A' H), (IH _ H). reflexivity.
+Qed.
+
+Lemma scan_tx_weq : forall x y t, weq x y ->
+  fst (scan_tx x t) = fst (scan_tx y t) /\ weq (snd (scan_tx x t)) (snd (scan_tx y t)).
+Proof.
+  intros x y t [A B]. unfold scan_tx. cbn [fst snd]. rewrite (paid_weq _ _ _ _ _ A). split.
+  - f_equal. apply existsb_ext'. intros i. apply mem_op_weq. exact B.
+  - split; cbn [fst snd]; [exact A|]. intros o. rewrite !in_app_iff, B. tauto.
+Qed.
+
+Lemma scan_weq : forall txs x y, weq x y ->
+  fst (scan x txs) = fst (scan y txs) /\ weq (snd (scan x txs)) (snd (scan y txs)).
+Proof.
+  induction txs as [|t r IH]; intros x y H; cbn [scan]; [split; [reflexivity | exact H]|].
+  destruct (scan_tx_weq x y t H) as [E1 E2].
+  destruct (scan_tx x t) as [rel x1]. destruct (scan_tx y t) as [rel' y1]. cbn [fst snd] in *. subst rel'.
+  destruct (IH x1 y1 E2) as [E3 E4].
+  destruct (scan x1 r) as [l x2]. destruct (scan y1 r) as [l' y2]. cbn [fst snd] in *. subst l'.
+  split; [reflexivity | exact E4].
+Qed.
+
+(* the items of a list of updates, as a watch state *)
+Definition qitems (q : list update) : swatch :=
+  (flat_map uaddrs q, flat_map (fun u => map fst (uinputs u)) q).
+Definition wapp (a b : swatch) : swatch := (fst a ++ fst b, snd a ++ snd b).
+
+Lemma wapp_nil : forall x, wapp x (qitems []) = x.
+Proof. intros [a o]. unfold wapp, qitems. cbn. rewrite !app_nil_r. reflexivity. Qed.
+
+(* the items of update [u] are watched in [x] *)
+Definition sub_w (u : update) (x : watch) : Prop :=
+  (forall a, In a (uaddrs u) -> In a (waddrs x)) /\
+  (forall o, In o (map fst (uinputs u)) -> In o (map fst (winputs x))).
+
+Lemma sub_w_add : forall u u' x, sub_w u x -> sub_w u (add_update u' x).
+Proof.
+  intros u u' x [A B]. unfold sub_w, add_update. cbn [waddrs winputs]. split.
+  - intros a H. apply in_or_app. left. auto.
+  - intros o H. rewrite map_app. apply in_or_app. left. auto.
+Qed.
+Lemma sub_w_self : forall u x, sub_w u (add_update u x).
+Proof.
+  intros u x. unfold sub_w, add_update. cbn [waddrs winputs]. split.
+  - intros a H. apply in_or_app. right. exact H.
+  - intros o H. rewrite map_app. apply in_or_app. right. exact H.
+Qed.
+
+Lemma add_update_closed : forall u x, watch_closed x -> watch_closed (add_update u x).
+Proof.
+  intros u x [Ca Ci]. unfold watch_closed, add_update. cbn [waddrs winputs wlist]. split.
+  - intros a Hx. apply in_app_or in Hx. apply in_or_app.
+    destruct Hx as [Hx|Hx]; [left; auto | right; apply in_or_app; left; exact Hx].
+  - intros a Hx. apply in_app_or in Hx. apply in_or_app.
+    destruct Hx as [Hx|Hx]; [left; auto | right; apply in_or_app; right; apply in_map; exact Hx].
+Qed.
+
+Lemma qitems_app : forall q r, qitems (q ++ r) = wapp (qitems q) (qitems r).
+Proof. intros q r. unfold qitems, wapp. cbn [fst snd]. rewrite !flat_map_app. reflexivity. Qed.
+
+Lemma qitems_in_a : forall q a, In a (fst (qitems q)) <-> exists u, In u q /\ In a (uaddrs u).
+Proof. intros q a. unfold qitems. cbn [fst]. apply in_flat_map. Qed.
+Lemma qitems_in_o : forall q o, In o (snd (qitems q)) <-> exists u, In u q /\ In o (map fst (uinputs u)).
+Proof. intros q o. unfold qitems. cbn [snd]. apply in_flat_map. Qed.
+
+(* applying an update whose items are still counted on the queue side *)
+Lemma weq_apply : forall mw x u r,
+  weq mw (wapp (proj_watch x) (qitems (u :: r))) ->
+  weq mw (wapp (proj_watch (add_update u x)) (qitems r)).
+Proof.
+  intros mw x u r [A B]. unfold weq, wapp, proj_watch, qitems, add_update in *.
+  cbn [fst snd waddrs winputs flat_map] in *. split.
+  - intros a. rewrite A, !in_app_iff. tauto.
+  - intros o. rewrite B, map_app, !in_app_iff. tauto.
+Qed.
+
+(* an update joins the specification's watch state and the queue *)
+Lemma weq_recv : forall mw x q u,
+  weq mw (proj_watch x) -> (forall u', In u' q -> sub_w u' x) ->
+  weq (fst mw ++ uaddrs u, snd mw ++ map fst (uinputs u)) (wapp (proj_watch x) (qitems (q ++ [u]))).
+Proof.
+  intros mw x q u [A B] Hq. rewrite qitems_app. unfold weq, wapp. cbn [fst snd]. split.
+  - intros a. rewrite !in_app_iff, A. unfold proj_watch, qitems. cbn [fst flat_map].
+    rewrite app_nil_r. split; [tauto|]. intros [H|[H|H]]; auto.
+    apply (qitems_in_a q a) in H. destruct H as (u' & Hu & Ha). left. apply (Hq u' Hu). exact Ha.
+  - intros o. rewrite !in_app_iff, B. unfold proj_watch, qitems. cbn [snd flat_map].
+    rewrite app_nil_r. split; [tauto|]. intros [H|[H|H]]; auto.
+    apply (qitems_in_o q o) in H. destruct H as (u' & Hu & Ho). left. apply (Hq u' Hu). exact Ho.
+Qed.
+
+(* a new pass over a queue all of whose updates have been applied *)
+Lemma weq_restart : forall mw x q,
+  weq mw (proj_watch x) -> (forall u', In u' q -> sub_w u' x) ->
+  weq mw (wapp (proj_watch x) (qitems q)).
+Proof.
+  intros mw x q [A B] Hq. unfold weq, wapp. cbn [fst snd]. split.
+  - intros a. rewrite in_app_iff, A. split; [tauto|]. intros [H|H]; auto.
+    apply (qitems_in_a q a) in H. destruct H as (u' & Hu & Ha). apply (Hq u' Hu). exact Ha.
+  - intros o. rewrite in_app_iff, B. split; [tauto|]. intros [H|H]; auto.
+    apply (qitems_in_o q o) in H. destruct H as (u' & Hu & Ho). apply (Hq u' Hu). exact Ho.
+Qed.
+
 (* ------------------------------------------------------ monitor, pure *)
 Lemma mon_cbs_snoc : forall l m c,
   mon_cbs m (l ++ [c]) =
@@ -139,9 +301,19 @@ Notation do_ev := (Model.do_ev fmatch).
 Notation step := (Model.step fmatch).
 Notation run := (Model.run fmatch).
 
+(* [c_watch]: what the specification says is watched (the items given at
+   Start, those of every Update call that has returned, the outputs found
+   paying watched addresses) is, as a set, what the code watches, together
+   with the updates the running pass over the queue of waitForBlocks has
+   still to apply ([wrest], empty except during a rewind started by that
+   pass); [c_q]: every update on that queue has been applied or is still to
+   be applied by the running pass *)
 Record Lrel (s : state) (m : mon) : Prop := {
   c_blocks : mblocks m = map blk_entry (seen s);
-  c_watch : mwatch m = proj_watch (w s);
+  c_watch : weq (mwatch m) (wapp (proj_watch (w s)) (qitems (wrest s)));
+  c_rest : forall u, In u (wrest s) -> In u (wq s);
+  c_q : forall u, In u (wq s) -> In u (wrest s) \/ sub_w u (w s);
+  c_qscr : forall u i, In u (wq s) -> In i (uinputs u) -> snd i = scr (fst i);
   c_closed : watch_closed (w s);
   c_wscr : forall i, In i (winputs (w s)) -> snd i = scr (fst i);
   c_bscr : forall b t, In b (seen s) -> In t (btxs b) -> tx_scripts_ok scr t;
@@ -160,6 +332,7 @@ Definition CSt (m0 : mon) (s : state) : Prop :=
 Definition cscan (s : state) : Prop :=
   match pc s with
   | PFilC | PBlkC | PFil _ _ | PBlk _ _ => scanning s = true
+  | PWBest _ | PWSub _ _ | PWait _ | PRew _ (UWait _) => scanning s = false
   | _ => True
   end.
 
@@ -168,21 +341,26 @@ Definition CPost (m0 : mon) (s : state) : Prop := CSt m0 s /\ cscan s.
 
 Definition same_c (s s' : state) : Prop :=
   seen s' = seen s /\ w s' = w s /\ (scanning s = true -> scanning s' = true) /\
-  cfg s' = cfg s /\ pend s' = pend s.
+  cfg s' = cfg s /\ pend s' = pend s /\ wq s' = wq s /\ wrest s' = wrest s.
 
 Lemma Lrel_frame : forall s s' m, same_c s s' -> Lrel s m -> Lrel s' m.
 Proof.
-  intros s s' m (E1 & E2 & E3 & E4 & E5) [A B C D E F G H I].
-  split; rewrite ?E1, ?E2, ?E4, ?E5; auto.
+  intros s s' m (E1 & E2 & E3 & E4 & E5 & E6 & E7) [A B B1 B2 B3 C D E F G H I].
+  split; rewrite ?E1, ?E2, ?E4, ?E5, ?E6, ?E7; auto.
 Qed.
 
 Lemma Lrel_mon_eq : forall s m m',
   mblocks m' = mblocks m -> mwatch m' = mwatch m -> mlatch m' = mlatch m ->
   mstartT m' = mstartT m -> mpend m' = mpend m -> Lrel s m -> Lrel s m'.
 Proof.
-  intros s m m' E1 E2 E3 E4 E5 [A B C D E F G H I].
+  intros s m m' E1 E2 E3 E4 E5 [A B B1 B2 B3 C D E F G H I].
   split; rewrite ?E1, ?E2, ?E3, ?E4, ?E5; auto.
 Qed.
+
+(* outside a pass over the queue of waitForBlocks the code watches exactly
+   (as a set) what the specification says *)
+Lemma Lrel_watch : forall s m, Lrel s m -> wrest s = [] -> weq (mwatch m) (proj_watch (w s)).
+Proof. intros s m L H. pose proof (c_watch _ _ L) as X. rewrite H, wapp_nil in X. exact X. Qed.
 
 Lemma CSt_frame : forall m0 s s', same_c s s' -> outq s' = outq s -> recvd s' = recvd s ->
   CSt m0 s -> CSt m0 s'.
@@ -214,7 +392,8 @@ Proof. intros [|x l]; [reflexivity | discriminate]. Qed.
    accepted if it carries what extractBlockMatches finds, or nothing while
    the rescan is not yet scanning *)
 Lemma CSt_conn : forall m0 s s' h k txs b,
-  Env s -> known s h -> recvd s = false -> CSt m0 s ->
+  Env s -> known s h -> recvd s = false -> CSt m0 s -> wrest s = [] ->
+  wq s' = wq s -> wrest s' = wrest s ->
   find_block (hid h) (seen s) = Some b ->
   (startT (cfg s) <? htime h = true -> scanning s = true) ->
   (extract (w s) (btxs b) = (txs, w s') \/ (scanning s = false /\ txs = [] /\ w s' = w s)) ->
@@ -223,23 +402,35 @@ Lemma CSt_conn : forall m0 s s' h k txs b,
   outq s' = outq s ++ [CbConn (hid h) (hprev h) k txs] ->
   CMid m0 s'.
 Proof.
-  intros m0 s s' h k txs b He K Hr (m1 & a1 & E & T & L) Hb Hl J E1 E3 E4 E5 Hr' Ho.
+  intros m0 s s' h k txs b He K Hr (m1 & a1 & E & T & L) Hwr Eq1 Eq2 Hb Hl J E1 E3 E4 E5 Hr' Ho.
   rewrite Hr in L. cbn [mon_recv] in L.
+  pose proof (Lrel_watch _ _ L Hwr) as Wq.
   split; [exact Hr'|]. unfold CSt. rewrite Ho, Hr', mon_cbs_snoc, E.
   destruct (find_block_known s h He K) as (b' & Hb' & Hbh). rewrite Hb in Hb'. inversion Hb'; subst b'.
   destruct (find_block_some _ _ _ Hb) as [Hin _].
   unfold mon_cb. destruct (mtold m1) as [t|] eqn:Et; [|contradiction].
   rewrite (c_blocks _ _ L), lookup_map, Hb. cbn [option_map]. rewrite Hbh.
-  rewrite (c_watch _ _ L).
   destruct (extract_scan (btxs b) (w s)) as [X1 X2].
-  destruct (scan (proj_watch (w s)) (btxs b)) as [rel x'] eqn:Es. cbn [fst snd] in X1, X2.
+  destruct (scan_weq (btxs b) _ _ Wq) as [Y1 Y2].
+  destruct (scan (mwatch m1) (btxs b)) as [rel x'] eqn:Es. cbn [fst snd] in Y1, Y2.
+  rewrite <- X1 in Y1. rewrite <- X2 in Y2.
   destruct J as [J|(J1 & J2 & J3)].
   - (* full delivery *)
-    rewrite J in X1, X2. cbn [fst snd] in X1, X2. subst rel x'.
+    rewrite J in Y1, Y2. cbn [fst snd] in Y1, Y2. subst rel.
     rewrite listN_eqb_refl. cbn [orb].
     eexists. eexists. split; [reflexivity|]. cbn [mtold]. split; [discriminate|].
-    cbn [mon_recv]. destruct L as [A B C D F G H I P].
-    split; cbn [mblocks mwatch mlatch mstartT mpend]; rewrite ?E1, ?E4, ?E5; auto.
+    cbn [mon_recv]. destruct L as [A B B1 B2 B3 C D F G H I P].
+    split; cbn [mblocks mwatch mlatch mstartT mpend]; rewrite ?E1, ?E4, ?E5, ?Eq1, ?Eq2; auto.
+    + rewrite Hwr, wapp_nil. exact Y2.
+    + intros u Hu. destruct (B2 u Hu) as [X|X]; [left; exact X | right].
+      destruct X as [Xa Xi].
+      assert (Mono : forall a, In a (waddrs (w s)) -> In a (waddrs (w s'))) .
+      { intros a0 Ha0. pose proof (extract_waddrs (btxs b) (w s)) as Q. rewrite J in Q.
+        cbn [snd] in Q. rewrite Q. exact Ha0. }
+      assert (Mono2 : forall o, In o (map fst (winputs (w s))) -> In o (map fst (winputs (w s')))).
+      { intros o0 Ho0. pose proof (extract_winputs (btxs b) (w s)) as Q. rewrite J in Q.
+        cbn [snd] in Q. apply Q. exact Ho0. }
+      split; auto.
     + pose proof (extract_closed (btxs b) (w s) C) as Q. rewrite J in Q. exact Q.
     + pose proof (extract_wscr scr (btxs b) (w s) D (fun t Ht => F b t Hin Ht)) as Q.
       rewrite J in Q. exact Q.
@@ -255,11 +446,11 @@ Proof.
     rewrite Hm, Ht. cbn [orb negb andb is_nil]. rewrite orb_true_r.
     eexists. eexists. split; [reflexivity|]. cbn [mtold]. split; [discriminate|].
     cbn [mon_recv].
-    assert (Hw : (if listN_eqb [] rel then x' else proj_watch (w s)) = proj_watch (w s)).
+    assert (Hw : (if listN_eqb [] rel then x' else mwatch m1) = mwatch m1).
     { destruct (listN_eqb [] rel) eqn:Q; [|reflexivity].
       apply listN_eqb_nil in Q. rewrite Q in Es. apply (scan_nil_same _ _ _ Es). }
-    destruct L as [A B C D F G H I P].
-    split; cbn [mblocks mwatch mlatch mstartT mpend]; rewrite ?E1, ?E4, ?E5, ?J3; auto.
+    destruct L as [A B B1 B2 B3 C D F G H I P].
+    split; cbn [mblocks mwatch mlatch mstartT mpend]; rewrite ?E1, ?E4, ?E5, ?J3, ?Eq1, ?Eq2, ?Hw; auto.
     intros Q; discriminate.
 Qed.
 
@@ -274,25 +465,34 @@ Lemma settle_C : forall m0 s, CSt m0 s -> CPost m0 (settle s).
 Proof.
   intros m0 s C. unfold settle. split.
   - eapply CSt_frame; [| | |exact C]; [samec | reflexivity | reflexivity].
-  - unfold cscan; projs. destruct (current s); exact I.
+  - unfold cscan; projs. destruct (current s); [destruct (quitf s)|]; exact I.
+Qed.
+
+(* the specification's watch state after an Update call has returned *)
+Lemma weq_add : forall mw x r u,
+  weq mw (wapp (proj_watch x) r) ->
+  weq (fst mw ++ uaddrs u, snd mw ++ map fst (uinputs u)) (wapp (proj_watch (add_update u x)) r).
+Proof.
+  intros mw x r u [A B]. unfold weq, wapp, proj_watch, add_update in *.
+  cbn [fst snd waddrs winputs] in *. split.
+  - intros a. rewrite !in_app_iff, A, in_app_iff. tauto.
+  - intros o. rewrite map_app, !in_app_iff, B, in_app_iff. tauto.
 Qed.
 
 Lemma recv_update_C : forall m0 u c s m1 a,
+  c = USelect \/ c = UDrain ->
   recvd s = false -> mon_cbs m0 (outq s) = (m1, a, true) -> mtold m1 <> None ->
   Lrel (set_pend (Some u) s) m1 -> CPost m0 (recv_update u c s).
 Proof.
-  intros m0 u c s m1 a Hr E T L. unfold recv_update.
+  intros m0 u c s m1 a Hc Hr E T L. unfold recv_update.
   set (s1 := set_w (add_update u (w s)) (set_out (outq s) true (set_pend None s))).
   assert (C1 : CSt m0 s1).
   { exists m1, a. subst s1; projs. split; [exact E|]. split; [exact T|].
-    destruct L as [A B C D F G H I P]; projs. unfold mon_recv. rewrite I.
+    destruct L as [A B B1 B2 B3 C D F G H I P]; projs. unfold mon_recv. rewrite I.
     split; cbn [mblocks mwatch mlatch mstartT mpend]; projs; auto.
-    - rewrite B. unfold proj_watch, add_update. cbn. rewrite map_app. reflexivity.
-    - destruct C as [Ca Ci]. unfold watch_closed, add_update. cbn [waddrs winputs wlist]. split.
-      + intros x Hx. apply in_app_or in Hx. apply in_or_app.
-        destruct Hx as [Hx|Hx]; [left; auto | right; apply in_or_app; left; exact Hx].
-      + intros x Hx. apply in_app_or in Hx. apply in_or_app.
-        destruct Hx as [Hx|Hx]; [left; auto | right; apply in_or_app; right; apply in_map; exact Hx].
+    - apply weq_add. exact B.
+    - intros u' Hu'. destruct (B2 u' Hu') as [X|X]; [left; exact X | right; apply sub_w_add; exact X].
+    - apply add_update_closed. exact C.
     - intros i Hi. unfold add_update in Hi. cbn [winputs] in Hi. apply in_app_or in Hi.
       destruct Hi as [Hi|Hi]; [auto | eapply P; [reflexivity | exact Hi]].
     - intros u' i' X; discriminate. }
@@ -300,7 +500,7 @@ Proof.
   fold s1.
   destruct ((urewind u <=? 0) || (curh s1 <=? urewind u)).
   - apply settle_C. exact C1.
-  - split; [|unfold cscan; projs; exact I].
+  - split; [|unfold cscan; projs; destruct Hc; subst c; exact I].
     eapply (CSt_disc m0 s1); [| | |exact C1]; [samec | reflexivity | reflexivity].
 Qed.
 
@@ -312,7 +512,8 @@ Proof.
   - destruct (pend s) as [u|] eqn:Ep; [|apply settle_C; exact C].
     destruct C as (m1 & a & E & T & L). rewrite Hr in L. cbn [mon_recv] in L.
     eapply recv_update_C; eauto.
-    eapply Lrel_frame; [|exact L]. samec.
+    + destruct (current s); auto.
+    + eapply Lrel_frame; [|exact L]. samec.
 Qed.
 
 Lemma after_drain_C : forall m0 s, CMid m0 s -> CPost m0 (after_drain s).
@@ -324,6 +525,103 @@ Proof.
     eapply Lrel_frame; [|exact L]. samec.
   - split; [|unfold cscan; projs; exact I].
     eapply CSt_frame; [| | |exact C]; [samec | reflexivity | reflexivity].
+Qed.
+
+(* ------------------------------------------------------ waitForBlocks *)
+Lemma enter_wait_C : forall m0 ph s, CSt m0 s -> scanning s = false -> CPost m0 (enter_wait ph s).
+Proof.
+  intros m0 ph s C Hs. unfold enter_wait. split.
+  - eapply CSt_frame; [| | |exact C]; [samec | reflexivity | reflexivity].
+  - unfold cscan; projs. destruct (quitf s); auto.
+Qed.
+
+(* one pass over the queue: the update at the head moves from the queue side
+   to the watch state of the code *)
+Lemma Lrel_apply1 : forall s m u r, Lrel s m -> wrest s = u :: r ->
+  Lrel (set_wrest r (set_w (add_update u (w s)) s)) m.
+Proof.
+  intros s m u r [A B B1 B2 B3 C D F G H I P] Hq.
+  assert (Hu : In u (wq s)) by (apply B1; rewrite Hq; left; reflexivity).
+  split; projs; auto.
+  - apply weq_apply. rewrite <- Hq. exact B.
+  - intros u' Hu'. apply B1. rewrite Hq. right. exact Hu'.
+  - intros u' Hu'. destruct (B2 u' Hu') as [X|X].
+    + rewrite Hq in X. destruct X as [<-|X]; [right; apply sub_w_self | left; exact X].
+    + right. apply sub_w_add. exact X.
+  - apply add_update_closed. exact C.
+  - intros i Hi. unfold add_update in Hi. cbn [winputs] in Hi. apply in_app_or in Hi.
+    destruct Hi as [Hi|Hi]; [auto | eapply B3; eauto].
+Qed.
+
+Lemma apply_q_C : forall m0 ph q s, CSt m0 s -> wrest s = q -> scanning s = false ->
+  CPost m0 (apply_q ph q s).
+Proof.
+  induction q as [|u r IH]; intros s C Hq Hs; cbn [apply_q].
+  - apply enter_wait_C; [|projs; exact Hs].
+    eapply CSt_frame; [| | |exact C]; [|reflexivity|reflexivity].
+    unfold same_c; projs; repeat split; auto.
+  - set (s1 := set_wrest r (set_w (add_update u (w s)) s)).
+    assert (C1 : CSt m0 s1).
+    { destruct C as (m1 & a & E & T & L). exists m1, a. subst s1; projs.
+      split; [exact E|]. split; [exact T|]. apply Lrel_apply1; assumption. }
+    change (curh s1) with (curh s).
+    destruct ((urewind u <=? 0) || (curh s <=? urewind u)).
+    + apply IH; [exact C1 | reflexivity | exact Hs].
+    + split; [|unfold cscan; projs; exact Hs].
+      eapply (CSt_disc m0 s1); [| | |exact C1]; [samec | reflexivity | reflexivity].
+Qed.
+
+Lemma recv_wait_C : forall m0 ph u s m1 a,
+  recvd s = false -> mon_cbs m0 (outq s) = (m1, a, true) -> mtold m1 <> None ->
+  Lrel (set_pend (Some u) s) m1 -> wrest s = [] -> scanning s = false ->
+  CPost m0 (recv_wait ph u s).
+Proof.
+  intros m0 ph u s m1 a Hr E T L Hw Hs. unfold recv_wait.
+  apply apply_q_C; [|reflexivity|projs; exact Hs].
+  exists m1, a. projs. split; [exact E|]. split; [exact T|].
+  pose proof (Lrel_watch _ _ L Hw) as Wq.
+  destruct L as [A B B1 B2 B3 C D F G H I P]; projs. unfold mon_recv. rewrite I.
+  assert (Hsub : forall u', In u' (wq s) -> sub_w u' (w s)).
+  { intros u' Hu'. destruct (B2 u' Hu') as [X|X]; [rewrite Hw in X; destruct X | exact X]. }
+  split; cbn [mblocks mwatch mlatch mstartT mpend]; projs; auto.
+  - apply weq_recv; assumption.
+  - intros u' i Hu' Hi. apply in_app_or in Hu'. destruct Hu' as [Hu'|[<-|[]]].
+    + eapply B3; eauto.
+    + eapply P; [reflexivity | exact Hi].
+  - intros u' i' X; discriminate.
+Qed.
+
+Lemma wait_top_C : forall m0 ph s, CMid m0 s -> wrest s = [] -> scanning s = false ->
+  CPost m0 (wait_top ph s).
+Proof.
+  intros m0 ph s [Hr C] Hw Hs. unfold wait_top.
+  destruct (pend s) as [u|] eqn:Ep; [|apply enter_wait_C; assumption].
+  destruct C as (m1 & a & E & T & L). rewrite Hr in L. cbn [mon_recv] in L.
+  eapply recv_wait_C; eauto.
+  eapply Lrel_frame; [|exact L]. samec.
+Qed.
+
+(* waitForBlocks returns: the queue is dropped - every update on it has been applied *)
+Lemma Lrel_dropq : forall s m, Lrel s m -> wrest s = [] -> Lrel (set_wq [] [] s) m.
+Proof.
+  intros s m [A B B1 B2 B3 C D F G H I P] Hw. split; projs; auto.
+  all: try (intros ? []; fail); try (intros ? ? []; fail).
+  rewrite Hw in B. exact B.
+Qed.
+
+Lemma wait_exit_C : forall m0 ph s, CMid m0 s -> wrest s = [] -> scanning s = false ->
+  CPost m0 (wait_exit ph s).
+Proof.
+  intros m0 ph s [Hr C] Hw Hs. unfold wait_exit.
+  assert (C1 : CSt m0 (set_wq [] [] (set_sub None s))).
+  { destruct C as (m1 & a & E & T & L). exists m1, a. projs. split; [exact E|]. split; [exact T|].
+    apply Lrel_dropq; [|projs; exact Hw]. eapply Lrel_frame; [|exact L]. samec. }
+  destruct ph.
+  - apply goto_top_C. split; [projs; exact Hr|].
+    eapply CSt_frame; [| | |exact C1]; [|reflexivity|reflexivity].
+    unfold same_c; projs; repeat split; auto. intros X; congruence.
+  - split; [|unfold cscan; projs; exact Hs].
+    eapply CSt_frame; [| | |exact C1]; [samec | reflexivity | reflexivity].
 Qed.
 
 Lemma fail_other_C : forall m0 s, CMid m0 s -> CPost m0 (fail_other s).
@@ -389,17 +687,24 @@ Ltac frameC C :=
   split; [eapply CSt_frame; [| | |exact (proj2 C)]; [samec | reflexivity | reflexivity]
          | unfold cscan; projs; try exact I].
 
+Lemma apply_q_recvd : forall ph q s, recvd (apply_q ph q s) = recvd s.
+Proof.
+  induction q as [|u r IH]; intros s; cbn [apply_q].
+  - unfold enter_wait; projs; reflexivity.
+  - destruct (_ || _); [rewrite IH|]; projs; reflexivity.
+Qed.
+
 (* --------------------------------------------- the pending call returns *)
 Lemma Env_same : forall s s', Env s -> chain s' = chain s -> seen s' = seen s ->
   g_coll (gf s') = g_coll (gf s) -> Env s'.
 Proof. intros s s' He E1 E2 E3. eapply Env_env; [exact He | repeat split; auto]. Qed.
 
 Lemma do_call_C : forall r s m0,
-  Inv s -> CMid m0 s -> cscan s ->
+  Inv s -> wr_inv s -> CMid m0 s -> cscan s ->
   ~ (pc s = PFilC /\ r = RNotFound) ->
   CPost m0 (do_call r s).
 Proof.
-  intros r s m0 Iv C Hsc Hnf.
+  intros r s m0 Iv Hw C Hsc Hnf. unfold wr_inv in Hw.
   pose proof (i_env _ Iv) as He. pose proof (i_pc _ Iv) as Hpc. unfold pc_inv in Hpc.
   destruct (CMid_L _ _ C) as (mL & L).
   pose proof (proj1 C) as Hr.
@@ -496,20 +801,61 @@ Proof.
   - (* PRew *)
     destruct (by_id (hprev (cur s)) (chain s)) as [p|]; [|frameC C].
     destruct (target <? hh p).
-    + split; [|unfold cscan; projs; exact I].
+    + split; [|unfold cscan; projs; destruct c; auto].
       eapply (CSt_disc m0 s); [| | |exact (proj2 C)]; [samec | reflexivity | reflexivity].
     + destruct c.
       * apply goto_top_C. eapply CMid_frame; [| | |exact C]; [samec | reflexivity | reflexivity].
       * apply after_drain_C. eapply CMid_frame; [| | |exact C]; [samec | reflexivity | reflexivity].
+      * (* the pass over the queue of waitForBlocks goes on *)
+        assert (P1 : CPost m0 (apply_q ph (wrest (set_cur p (hh p) s)) (set_cur p (hh p) s))).
+        { apply apply_q_C; [|reflexivity|projs; exact Hsc].
+          eapply CSt_frame; [| | |exact (proj2 C)]; [samec | reflexivity | reflexivity]. }
+        assert (R1 : recvd (apply_q ph (wrest (set_cur p (hh p) s)) (set_cur p (hh p) s)) = false).
+        { rewrite apply_q_recvd. projs. exact Hr. }
+        pose proof (apply_q_wr ph (wrest (set_cur p (hh p) s)) (set_cur p (hh p) s)) as W1.
+        revert P1 R1 W1. generalize (apply_q ph (wrest (set_cur p (hh p) s)) (set_cur p (hh p) s)).
+        intros s2 [C2 S2] R2 W2. unfold wait_settle.
+        destruct (pc s2) eqn:E2; try (split; [exact C2 | exact S2]).
+        unfold wr_inv in W2. unfold cscan in S2. rewrite E2 in W2, S2.
+        apply wait_top_C; [split; assumption | exact W2 | exact S2].
   - (* PDone *) split; [exact (proj2 C) | unfold cscan; rewrite Epc; exact I].
   - (* PDead *) split; [exact (proj2 C) | unfold cscan; rewrite Epc; exact I].
+  - (* PExit *) split; [exact (proj2 C) | unfold cscan; rewrite Epc; exact I].
+  - (* PWBest *)
+    destruct (chain s) as [|t r0]; [frameC C|].
+    destruct (wpred ph (hid t) (hh t) s).
+    + apply wait_exit_C; assumption.
+    + frameC C. exact Hsc.
+  - (* PWSub *)
+    destruct (backlog s k); [|frameC C].
+    apply wait_top_C; [|projs; exact Hw|projs; exact Hsc].
+    eapply CMid_frame; [| | |exact C]; [samec | reflexivity | reflexivity].
+  - (* PWait *) split; [exact (proj2 C) | unfold cscan; rewrite Epc; exact Hsc].
 Qed.
 
 (* ------------------------------------------- a notification is received *)
-Lemma do_ntfn_C : forall s m0, CMid m0 s -> cscan s -> CPost m0 (do_ntfn s).
+Lemma do_ntfn_C : forall s m0, wr_inv s -> CMid m0 s -> cscan s -> CPost m0 (do_ntfn s).
 Proof.
-  intros s m0 C Hsc. unfold do_ntfn.
+  intros s m0 Hw C Hsc. unfold do_ntfn.
   destruct (pc s) eqn:Epc; try (split; [exact (proj2 C) | exact Hsc]).
+  2:{ (* the select of waitForBlocks *)
+    unfold wr_inv in Hw. unfold cscan in Hsc. rewrite Epc in Hw, Hsc.
+    destruct (sub s) as [[|n q]|];
+      try (split; [exact (proj2 C) | unfold cscan; rewrite Epc; exact Hsc]).
+    assert (C1 : CMid m0 (set_sub (Some q) s)).
+    { eapply CMid_frame; [| | |exact C]; [samec | reflexivity | reflexivity]. }
+    destruct n as [h|h t].
+    - destruct (wpred ph (hid h) (hh h) (set_sub (Some q) s)).
+      + apply wait_exit_C; [exact C1 | projs; exact Hw | projs; exact Hsc].
+      + apply apply_q_C; [|reflexivity|projs; exact Hsc].
+        destruct C1 as [R1 (m1 & a & E & T & L)]. exists m1, a. projs.
+        split; [exact E|]. split; [exact T|]. projs. rewrite R1 in *. cbn [mon_recv] in *.
+        pose proof (Lrel_watch _ _ L Hw) as Wq.
+        destruct L as [A B B1 B2 B3 C0 D F G H I P]; projs.
+        split; projs; auto.
+        * apply weq_restart; [exact Wq|]. intros u' Hu'.
+          destruct (B2 u' Hu') as [X|X]; [rewrite Hw in X; destruct X | exact X].
+    - split; [exact (proj2 C1) | unfold cscan; projs; rewrite Epc; exact Hsc]. }
   destruct (sub s) as [[|n q]|]; try (split; [exact (proj2 C) | exact Hsc]).
   destruct n as [h|h t]; projs.
   - destruct (negb (is_nil (retryq s))).
@@ -522,7 +868,7 @@ Proof.
 Qed.
 
 (* ------------------------------------------------------------ one step *)
-Definition dead (s : state) : Prop := pc s = PDone \/ pc s = PDead.
+Definition dead (s : state) : Prop := pc s = PDone \/ pc s = PDead \/ pc s = PExit.
 Definition CB (s : state) (m : mon) : Prop := dead s \/ (Lrel s m /\ cscan s).
 
 (* what the end of a step must provide *)
@@ -551,11 +897,13 @@ Proof.
   destruct e; cbn [do_ev]; unfold push_ntfn, do_call, do_ntfn.
   - blast; auto.
   - blast; auto.
-  - destruct D as [D|D]; rewrite D; auto.
-  - destruct (pend s); [auto|]. destruct D as [D|D]; rewrite D; auto.
-  - destruct D as [D|D]; rewrite D; auto.
-  - destruct D as [D|D]; rewrite D; auto.
-  - destruct D as [D|D]; rewrite D; auto.
+  - destruct D as [D|[D|D]]; rewrite D; auto.
+  - destruct (pend s); [auto|]. destruct D as [D|[D|D]]; rewrite D; auto.
+  - destruct D as [D|[D|D]]; rewrite D; auto.
+  - destruct D as [D|[D|D]]; rewrite D; auto.
+  - destruct D as [D|[D|D]]; rewrite D; auto.
+  - auto.
+  - destruct D as [D|[D|D]]; rewrite D; auto.
 Qed.
 
 Lemma start_at_C : forall c h k s m m0,
@@ -565,14 +913,18 @@ Lemma start_at_C : forall c h k s m m0,
   (forall i, In i (cinputs c) -> snd i = scr (fst i)) ->
   CPost m0 (start_at c h k s).
 Proof.
-  intros c h k s m m0 L T Hb Hq Ho Hr Hp Hw Hl Ht Hs. unfold start_at. apply goto_top_C.
-  split; [projs; exact Hr|]. exists m0, true. projs. rewrite Ho, Hr. cbn [mon_cbs mon_recv].
+  intros c h k s m m0 L T Hb Hq Ho Hr Hp Hw Hl Ht Hs. unfold start_at.
+  split; [|unfold cscan; projs; reflexivity].
+  exists m0, true. projs. rewrite Ho, Hr. cbn [mon_cbs mon_recv].
   split; [reflexivity|]. split; [exact T|].
-  destruct L as [A B C D F G H I P].
+  destruct L as [A B B1 B2 B3 C D F G H I P].
   split; projs; auto; try congruence.
-  unfold watch_closed; cbn [waddrs winputs wlist]. split.
-  - intros a Ha. apply in_or_app; left; exact Ha.
-  - intros i Hi. apply in_or_app; right. apply in_map; exact Hi.
+  all: try (intros ? []; fail); try (intros ? ? []; fail).
+  all: try (intros X; rewrite Hl in X; discriminate).
+  - rewrite Hw. unfold proj_watch. cbn [waddrs winputs]. rewrite wapp_nil. apply weq_refl.
+  - unfold watch_closed; cbn [waddrs winputs wlist]. split.
+    + intros a Ha. apply in_or_app; left; exact Ha.
+    + intros i Hi. apply in_or_app; right. apply in_map; exact Hi.
 Qed.
 
 Lemma g_nf_notfound : forall s, pc s = PFilC -> g_nf (gf (do_call RNotFound s)) = true.
@@ -584,15 +936,16 @@ Lemma cscan_same : forall s s', pc s' = pc s -> scanning s' = scanning s -> csca
 Proof. intros s s' E1 E2. unfold cscan. rewrite E1, E2. auto. Qed.
 
 Lemma step_C : forall s m e,
-  Inv s -> chain_rel s m -> told_rel s m -> CB s m ->
+  Inv s -> wr_inv s -> chain_rel s m -> told_rel s m -> CB s m ->
   ev_scripts_ok scr e ->
   g_nf (gf (fst (step s e))) = false ->
   CB (fst (step s e)) (fst (fst (mon_step m (e, snd (step s e))))) /\
   snd (mon_step m (e, snd (step s e))) = true.
 Proof.
-  intros s m e Iv Rc Rt B Hev Hnf. unfold step in *. cbn [fst snd] in *.
+  intros s m e Iv Hw Rc Rt B Hev Hnf. unfold step in *. cbn [fst snd] in *.
   set (s0 := set_out [] false s) in *.
   pose proof (Inv_out s Iv) as I0. fold s0 in I0.
+  assert (Hw0 : wr_inv s0) by exact Hw.
   unfold mon_step. cbn [fst snd ocbs orecv].
   assert (Fin : forall s', CFin (mon_env m e) s' ->
     CB s' (fst (fst (let '(m1, a, b) := mon_cbs (mon_env m e) (outq s') in
@@ -601,7 +954,7 @@ Proof.
          (mon_recv m1 (recvd s'), a, b)) = true).
   { intros s' (m1 & a & E & L & Hc). rewrite E. cbn [fst snd]. split; [right; auto | reflexivity]. }
   assert (DD : dead s \/ ~ dead s).
-  { unfold dead. destruct (pc s); auto; right; intros [X|X]; discriminate. }
+  { unfold dead. destruct (pc s); auto; right; intros [X|[X|X]]; discriminate. }
   destruct DD as [D|ND].
   { (* the rescan has ended *)
     assert (D0 : dead s0) by exact D.
@@ -618,13 +971,14 @@ Proof.
     apply quiet_fin.
     + unfold push_ntfn. blast; reflexivity.
     + unfold push_ntfn. blast; reflexivity.
-    + destruct L0 as [A B C D F G H J P].
+    + destruct L0 as [A B B1 B2 B3 C D F G H J P].
       assert (X : forall s', seen s' = seen s0 ++ [{| bh := {| hid := id; hprev := hid t; htime := time; hh := hh t + 1 |}; btxs := txs |}] ->
                 w s' = w s0 -> scanning s' = scanning s0 -> cfg s' = cfg s0 -> pend s' = pend s0 ->
+                wq s' = wq s0 -> wrest s' = wrest s0 ->
                 Lrel s' {| mchain := match mchain m with (_, k) :: _ => (id, k + 1) :: mchain m | [] => [] end;
                            mblocks := mblocks m ++ [(id, (time, txs))]; mtold := mtold m; mwatch := mwatch m;
                            mlatch := mlatch m; mpend := mpend m; mstartT := mstartT m |}).
-      { intros s' E1 E2 E3 E4 E5. split; cbn [mblocks mwatch mlatch mstartT mpend]; rewrite ?E1, ?E2, ?E3, ?E4, ?E5; auto.
+      { intros s' E1 E2 E3 E4 E5 E6 E7. split; cbn [mblocks mwatch mlatch mstartT mpend]; rewrite ?E1, ?E2, ?E3, ?E4, ?E5, ?E6, ?E7; auto.
         - rewrite map_app, A. reflexivity.
         - intros b t' Hb Ht. apply in_app_or in Hb. destruct Hb as [Hb|[<-|[]]]; [eapply F; eauto|].
           cbn in Ht. apply Hev. exact Ht. }
@@ -661,7 +1015,7 @@ Proof.
         set (m0 := {| mchain := mchain m; mblocks := mblocks m; mtold := Some t; mwatch := mwatch m;
                       mlatch := mlatch m; mpend := Some u; mstartT := mstartT m |}).
         assert (Lu : Lrel (set_pend (Some u) s0) m0).
-        { destruct L0 as [A B C D F G H J P]. split; subst m0; projs; auto.
+        { destruct L0 as [A B B1 B2 B3 C D F G H J P]. split; subst m0; projs; auto.
           intros u' i X Hi. inversion X; subst u'. apply Hev. exact Hi. }
         assert (G : CFin m0 (set_pend (Some u) s0)).
         { apply quiet_fin; auto. }
@@ -670,7 +1024,12 @@ Proof.
            apply CPost_fin. eapply (recv_update_C m0 u USelect s0 m0 true); auto.
            subst m0; cbn; discriminate.
         -- exfalso; apply ND; left; exact Epc.
-        -- exfalso; apply ND; right; exact Epc.
+        -- exfalso; apply ND; right; left; exact Epc.
+        -- exfalso; apply ND; right; right; exact Epc.
+        -- (* the select of waitForBlocks: received at once *)
+           unfold wr_inv in Hw. unfold cscan in Hsc. rewrite Epc in Hw, Hsc.
+           apply CPost_fin. eapply (recv_wait_C m0 ph u s0 m0 true); auto.
+           subst m0; cbn; discriminate.
       * rewrite Rt. apply quiet_fin; auto.
   - (* call returns *)
     unfold told_rel in Rt. destruct (mtold m) as [t|] eqn:Em.
@@ -690,39 +1049,63 @@ Proof.
     unfold told_rel in Rt. destruct (mtold m) as [t|] eqn:Em; [|congruence].
     apply CPost_fin. apply retry_loop_C.
     eapply CMid_begin; [exact L0 | rewrite Em; discriminate | samec | reflexivity | reflexivity].
+  - (* IsCurrent changes *)
+    apply quiet_fin; auto. eapply Lrel_frame; [|exact L0]. samec.
+  - (* quit *)
+    change (pc s0) with (pc s).
+    assert (G : forall s', outq s' = [] -> recvd s' = false -> same_c s0 s' ->
+                (pc s' = pc s \/ pc s' = PExit) -> scanning s' = scanning s -> CFin m s').
+    { intros s' Ho Hr Hsame Hpc' Hsc'. apply quiet_fin; auto.
+      - eapply Lrel_frame; [exact Hsame | exact L0].
+      - destruct Hpc' as [X|X]; [eapply cscan_same; eauto | unfold cscan; rewrite X; exact I]. }
+    destruct (pc s) eqn:Epc; apply G; projs; auto; samec.
 Qed.
 
 (* ------------------------------------------------------ whole histories *)
+(* the model state and the monitor state after a trace *)
+Definition mon_final (m : mon) (tr : list (ev * obs)) : mon := fst (fst (mon_run m tr)).
+
 Lemma run_complete : forall evs s m,
-  Inv s -> chain_rel s m -> told_rel s m -> CB s m ->
+  Inv s -> wr_inv s -> chain_rel s m -> told_rel s m -> CB s m ->
   (forall e, In e evs -> ev_scripts_ok scr e) ->
   g_coll (gf (fst (run s evs))) = false -> g_nf (gf (fst (run s evs))) = false ->
-  snd (mon_run m (combine evs (snd (run s evs)))) = true.
+  snd (mon_run m (combine evs (snd (run s evs)))) = true /\
+  CB (fst (run s evs)) (mon_final m (combine evs (snd (run s evs)))) /\
+  wr_inv (fst (run s evs)).
 Proof.
-  induction evs as [|e r IH]; intros s m Iv Rc Rt B Hs Hc Hn;
-    cbn [Model.run fst snd combine mon_run] in *; [reflexivity|].
+  unfold mon_final.
+  induction evs as [|e r IH]; intros s m Iv Hw Rc Rt B Hs Hc Hn;
+    cbn [Model.run fst snd combine mon_run] in *; [auto|].
   destruct (step s e) as [s1 o] eqn:Es. destruct (run s1 r) as [s2 os] eqn:Er.
   cbn [fst snd combine mon_run] in *.
   pose proof (run_flags fmatch r s1) as Fl. rewrite Er in Fl. cbn [fst] in Fl.
   pose proof (proj1 Fl Hn) as N1. pose proof (proj2 Fl Hc) as C1.
   pose proof (step_rel fmatch s m e Iv Rc Rt) as SR. rewrite Es in SR. cbn [fst snd] in SR.
   destruct (SR C1) as (I1 & Rc1 & Rt1 & _).
-  pose proof (step_C s m e Iv Rc Rt B (Hs e (or_introl eq_refl))) as SC.
+  pose proof (step_C s m e Iv Hw Rc Rt B (Hs e (or_introl eq_refl))) as SC.
   rewrite Es in SC. cbn [fst snd] in SC. destruct (SC N1) as [B1 Hb].
+  assert (Hw1 : wr_inv s1).
+  { assert (X : s1 = Model.do_ev fmatch e (set_out [] false s)) by (unfold Model.step in Es; inversion Es; reflexivity).
+    rewrite X. apply do_ev_wr. exact Hw. }
   destruct (mon_step m (e, o)) as [[m1 a] b]. cbn [fst snd] in *.
-  specialize (IH s1 m1 I1 Rc1 Rt1 B1 (fun e' H => Hs e' (or_intror H))).
+  specialize (IH s1 m1 I1 Hw1 Rc1 Rt1 B1 (fun e' H => Hs e' (or_intror H))).
   rewrite Er in IH. cbn [fst snd] in IH. specialize (IH Hc Hn).
-  destruct (mon_run m1 (combine r os)) as [[m2 a'] b']. cbn [fst snd] in *. subst. reflexivity.
+  destruct (mon_run m1 (combine r os)) as [[m2 a'] b']. cbn [fst snd] in *.
+  destruct IH as (X1 & X2 & X3). subst. auto.
 Qed.
 
 Lemma CB_init : forall gid gtime, CB (init gid gtime) (mon0 gid gtime).
 Proof.
   intros gid gtime. right. split; [|exact I].
   unfold init, mon0. split; cbn; auto; try (intros; discriminate).
+  all: try (intros ? []; fail); try (intros ? ? []; fail).
+  - apply weq_refl.
   - split; intros x [].
-  - intros i [].
   - intros b t [<-|[]] [].
 Qed.
+
+Lemma wr_init : forall gid gtime, wr_inv (init gid gtime).
+Proof. intros. reflexivity. Qed.
 
 Theorem complete_unless : forall gid gtime evs,
   let r := run (init gid gtime) evs in
@@ -733,9 +1116,36 @@ Proof.
   intros gid gtime evs r Hc Hn Hs. unfold complete_ok. subst r.
   apply run_complete; auto.
   - apply Inv_init.
+  - apply wr_init.
   - reflexivity.
   - reflexivity.
   - apply CB_init.
+Qed.
+
+(* what the code watches is what the specification says is watched, at every
+   moment at which the rescan is alive and not in the middle of a pass over
+   the queue of waitForBlocks *)
+Theorem watch_is_spec : forall gid gtime evs,
+  let r := run (init gid gtime) evs in
+  let s := fst r in
+  let m := mon_final (mon0 gid gtime) (combine evs (snd r)) in
+  g_coll (gf s) = false -> g_nf (gf s) = false ->
+  (forall e, In e evs -> ev_scripts_ok scr e) ->
+  pc s <> PDone -> pc s <> PDead -> pc s <> PExit ->
+  (forall t ph, pc s <> PRew t (UWait ph)) ->
+  weq (mwatch m) (proj_watch (w s)) /\ mpend m = pend s.
+Proof.
+  intros gid gtime evs r s m Hc Hn Hs N1 N2 N3 N4. subst r s m.
+  destruct (run_complete evs (init gid gtime) (mon0 gid gtime)) as (_ & B & W); auto.
+  - apply Inv_init.
+  - apply wr_init.
+  - reflexivity.
+  - reflexivity.
+  - apply CB_init.
+  - destruct B as [[D|[D|D]]|[L _]]; try contradiction.
+    split; [|apply (c_pend _ _ L)]. apply (Lrel_watch _ _ L).
+    unfold wr_inv in W. destruct (pc (fst (run (init gid gtime) evs))) eqn:E; auto; try congruence.
+    destruct c; auto. exfalso. eapply N4. reflexivity.
 Qed.
 
 End Complete.
@@ -758,6 +1168,22 @@ Theorem complete_unless_scripts : forall fmatch,
 Proof.
   intros fmatch Hf gid gtime evs r Hc Hn (scr & Hs).
   apply (complete_unless fmatch Hf scr); auto.
+Qed.
+
+Theorem watch_is_spec_scripts : forall fmatch,
+  (forall wl b sc, In sc wl -> In sc (block_scripts b) -> fmatch wl b = true) ->
+  forall gid gtime evs,
+  let r := Model.run fmatch (init gid gtime) evs in
+  let s := fst r in
+  let m := mon_final (mon0 gid gtime) (combine evs (snd r)) in
+  g_coll (gf s) = false -> g_nf (gf s) = false ->
+  scripts_ok evs ->
+  pc s <> PDone -> pc s <> PDead -> pc s <> PExit ->
+  (forall t ph, pc s <> PRew t (UWait ph)) ->
+  weq (mwatch m) (proj_watch (w s)) /\ mpend m = pend s.
+Proof.
+  intros fmatch Hf gid gtime evs r s m Hc Hn (scr & Hs).
+  apply (watch_is_spec fmatch Hf scr); auto.
 Qed.
 
 Theorem holds_unless : forall fmatch,
